@@ -356,14 +356,16 @@ CLAIMED["C17"] = dict(
          "(two senders whose counters differ by any delta, any ordered messages, any loss / duplication / reordering: "
          "the receivers deliver the same messages and send the same SACKs), the NACK generator (same `missed` verdicts, "
          "missing set shifted) and the RTP sender's retransmission history (same media packets shifted, same "
-         "retransmissions verbatim or as RTX with the shifted original sequence number, history slots rotated) - 11 "
-         "theorems. PARTIAL: reconfiguration sequence number origins are covered by the metamorphic re-run of the "
-         "implementation (two-endpoint runs with origins across the wrap), not by a theorem.",
+         "retransmissions verbatim or as RTX with the shifted original sequence number, history slots rotated) and the "
+         "data-channel layer under a shift of its own and of the peer's RE-CONFIG request numbering (all input lists: "
+         "same events, only the request / response numbers shifted) - 12 theorems. PARTIAL: the separate shift "
+         "theorems are not composed into one statement about a whole peer connection; the metamorphic re-run of the "
+         "implementation (two-endpoint runs with origins across the wrap) covers that end to end.",
     design_ref="5 / C17",
     note="Gen/Utils.v is validated by value inside Coq (vm_compute) against the Python functions on boundary-biased "
          "pairs each run. Shift theorems are about Model/SctpRecv.v, SctpTx.v, SctpSend.v, RtpRecv.v (NackGenerator), "
-         "RtpSend.v, Jitter.v, Stats.v, each tied to the code by its correspondence; this check re-runs the receiver, "
-         "_send, NackGenerator and RTP sender correspondences at wrap origins and "
+         "RtpSend.v, Chan.v, Jitter.v, Stats.v, each tied to the code by its correspondence; this check re-runs the "
+         "receiver, _send, NackGenerator, RTP sender and data-channel layer correspondences at wrap origins and "
          "metamorphic pairs on two real SCTP endpoints, the receive path, JitterBuffer, NackGenerator and "
          "StreamStatistics.",
     technique="Coq proof (lia on generated code, simulation relations for origin shifts) + regeneration + "
